@@ -24,5 +24,3 @@ Definition mismatches (cs : list case) : list N :=
 Definition spec_violations (cs : list case) : list N :=
   indices_where (fun c => c_judged c && negb (P (c_input c) (c_obs c))) cs.
 Definition trigger_F5a (cs : list case) : list N := indices_where (fun c => T_F5a (c_input c)) cs.
-Definition trigger_F5b (cs : list case) : list N := indices_where (fun c => T_F5b (c_input c)) cs.
-Definition trigger_F5c (cs : list case) : list N := indices_where (fun c => T_F5c (c_input c)) cs.
